@@ -80,7 +80,7 @@ _EXTREME = {
     "STEPD": [("alpha_drift", [1e-20, 0.0, 0.9]), ("alpha_warning", [0.99, 1e-20])],
     "LinearFourRates": [("detect_level", [0.5, 0.001]), ("warning_level", [0.6]), ("time_decay_factor", [0.0, 0.999])],
     "KdqTreeStreaming": [("persistence", [0.0, 1.0]), ("alpha", [0.9, 0.001]), ("count_ubound", [1, 50])],
-    "PCACD": [("delta", [0.0, 0.5]), ("ev_threshold", [0.5, 0.999])],
+    "PCACD": [("delta", [0.5]), ("ev_threshold", [0.5, 0.999])],
     "KdqTreeBatch": [("alpha", [0.9, 0.001]), ("count_ubound", [1, 50])],
     "HDDDM": [("significance", [0.9, 0.001]), ("subsets", [1, 8])],
     "CDBD": [("significance", [0.9, 0.001]), ("subsets", [1, 8])],
@@ -119,7 +119,10 @@ def _sample_cfg(rng, name):
                 "alpha": rng.choice([0.1, 0.3]), "bootstrap_samples": rng.randint(5, 10), "count_ubound": rng.randint(2, 4)}
     if name == "PCACD":
         return {"window_size": rng.choice([20, 30]), "sample_period": rng.choice([0.05, 0.1]),
-                "divergence_metric": rng.choice(["kl", "intersection"]), "delta": rng.choice([0.01, 0.05]),
+                # (non-lattice deltas: with windows below 50 PCA-CD's Page-Hinkley threshold is 0 and intersection scores live on a
+                #  1/window lattice, so with delta 0.05 the cumulative sum lands EXACTLY on its minimum and one ulp of noise -
+                #  another memory layout after a deepcopy, an int-typed input - decides the alarm; twins must not meet such ties)
+                "divergence_metric": rng.choice(["kl", "intersection"]), "delta": rng.choice([0.013, 0.037]),
                 "ev_threshold": rng.choice([0.8, 0.99]), "online_scaling": rng.random() < 0.6}
     if name == "KdqTreeBatch":
         return {"alpha": rng.choice([0.05, 0.2]), "bootstrap_samples": rng.randint(5, 12), "count_ubound": rng.randint(2, 6)}
